@@ -441,7 +441,7 @@ class Sweep:
                     try:
                         outs = self.m.explore(mk, self.b, head, set(self.heads))
                     except Unsupported as e:
-                        self.problems.append({"where": "bb%d" % head, "state": fmt_state(A, C, X, sh),
+                        self.problems.append({"where": "bb%d" % head, "state": fmt_state(A, C, X, sh), "unsupported": True,
                                               "problem": "cannot interpret the round: %s" % e})
                         if len(self.problems) - nprob > 3:
                             return []
@@ -456,7 +456,7 @@ class Sweep:
                                 for s2 in self.expand_shape(self.shape_of(oc.bb, oc.env)):
                                     succ.add((oc.bb, tuple(sorted((k, v) for k, v in s2.items()))))
                         except Unsupported as e:
-                            self.problems.append({"where": "bb%d" % head, "state": fmt_state(A, C, X, sh),
+                            self.problems.append({"where": "bb%d" % head, "state": fmt_state(A, C, X, sh), "unsupported": True,
                                                   "problem": "cannot read what the round did: %s" % e})
                     if len(self.problems) - nprob > 12:
                         return []
